@@ -2,7 +2,7 @@
 (* LifeMech |= LifeAbs over all histories up to MaxOps operations.  Every violation    *)
 (* signature is collected with its first (BFS-shortest) witness history.               *)
 EXTENDS LifeMech
-CONSTANTS MaxOps, Universe
+CONSTANTS MaxOps, Universe, InCall
 VARIABLES m, status, got, want, hist
 vars == <<m, status, got, want, hist>>
 Init == /\ m = MInit /\ status = [p \in Probes |-> "new"]
@@ -21,7 +21,14 @@ Call(fn) ==
   /\ got'  = [p \in Probes |-> got[p]  + IF Hears(m, p) THEN Len(EventsOf(p, fn, 0)) ELSE 0]
   /\ want' = [p \in Probes |-> want[p] + IF status[p] = "active" THEN Len(EventsOf(p, fn, 0)) ELSE 0]
   /\ UNCHANGED <<m, status>>
-Next == \/ \E p \in Universe : Activate(p) \/ Deactivate(p)
+\* f() during which p is deactivated at the point where f calls g (InCall universes hold no call-path / total probes)
+DeactInCall(p) ==
+  /\ InCall /\ status[p] = "active" /\ hist' = Append(hist, <<"calld", Len(hist), p>>)
+  /\ LET m1 == MDeactivate(m, p) IN
+     /\ got'  = [q \in Probes |-> got[q] + (IF Hears(m, q) THEN Len(BeforeG(q, 0)) ELSE 0) + (IF Hears(m1, q) THEN Len(InG(q, 0)) ELSE 0)]
+     /\ want' = [q \in Probes |-> want[q] + IF status[q] = "active" THEN Len(BeforeG(q, 0)) + (IF q = p THEN 0 ELSE Len(InG(q, 0))) ELSE 0]
+  /\ m' = MDeactInCallEnd(m, p) /\ status' = [status EXCEPT ![p] = "done"]
+Next == \/ \E p \in Universe : Activate(p) \/ Deactivate(p) \/ DeactInCall(p)
         \/ \E fn \in {x \in Fns : x \in {"f", "g"} \/ \E p \in Universe : x \in Touches(p)} : Call(fn)
 Spec == Init /\ [][Next]_vars
 
